@@ -167,6 +167,17 @@ func (r *Recorder) Mark(m string, who int) int64 {
 	return seq
 }
 
+// MarkV appends a harness marker carrying a value.
+func (r *Recorder) MarkV(m string, who int, v int64) int64 {
+	r.mu.Lock()
+	seq := NextSeq()
+	if r.KeepLog {
+		r.Log = append(r.Log, Event{Seq: seq, Kind: EvMarker, Marker: m, Who: who, I: v})
+	}
+	r.mu.Unlock()
+	return seq
+}
+
 // Snapshot returns a copy of the log and aggregates.
 func (r *Recorder) Snapshot() ([]Event, map[string]Agg, map[EvKind]int64) {
 	r.mu.Lock()
